@@ -94,9 +94,9 @@ class Report:
         self.notes.append(text)
 
     # --------------------------------------------------------------- finish
-    def finish(self, prog=None, explanation: str = "") -> int:
+    def finish(self, prog=None, explanation: str = "", aborted: bool = False) -> int:
         known = KnownFindings()
-        code = 0
+        code = 2 if aborted else 0      # (aborted: the analysis ended with an ANALYSIS-ERROR after something was reported; never exit 0)
         # vacuity: a rule matching fewer instances than confirmed by hand is analysis-broken
         for rid, r in self.rules.items():
             # a rule that reports a violation explains its own missing instances (the violating construct is what vanished)
